@@ -23,6 +23,9 @@ import (
 )
 
 func verifC31(fields []string) string {
+	if len(fields) > 0 && fields[0] == "sites" {
+		return verifC31Sites(fields[1:])
+	}
 	if len(fields) != 2 || fields[0] != "run" {
 		return "ERR usage"
 	}
